@@ -191,7 +191,12 @@ def render_doc(doc, lay, module_name=False, head=None):
             out.append(ind + "#" + l)       # '#' leader with zero following spaces (at most one is removed)
         else:
             out.append(ind + ("# " + l if l != "" else "#"))
-    out.append(ind + "#]]")
+    last = doc["lines"][-1] if doc["lines"] else ""
+    if doc.get("close") == "inline" and doc.get("form") != "bare" and last.strip() and last.rstrip()[-1] not in "#]" and len(out) > 1:
+        out[-1] = out[-1] + " #]]"       # grammar-legal: the block comment ends at the first '#]]'
+        lay.features.add("doc-closed-on-last-text-line")
+    else:
+        out.append(ind + "#]]")
     return "\n".join(out) + "\n"
 
 
